@@ -415,6 +415,12 @@ def stack(arrays, axis=None, keys=None, align=False, **kwargs):
             msg = 'axes are not aligned\n ==> Try passing `align=True`' 
         raise ValueError(msg)
 
+    # the values were joined as they are: singleton axes must agree as well
+    for a in arrays:
+        for ax in a.axes:
+            if not np.all(ax.values == axes[ax.name].values):
+                raise ValueError('axes are not aligned\n ==> Try passing `align=True`')
+
     # new axes
     #newaxes = axes[:pos] + [newaxis] + axes[pos:] 
     newaxes = [newaxis] + axes
